@@ -185,5 +185,5 @@ def run_shard(ctx: core.Ctx) -> core.ShardResult:
     quick = ctx.tier == 'quick'
     done = core.run_enumeration(ctx, res, enum_cases(quick), check)
     res.extra['exhaustive_single_preemption_complete'] = bool(done)
-    core.run_hypothesis(ctx, res, cases(quick), check, ctx.n(400, 8000))
+    core.run_hypothesis(ctx, res, cases(quick), check, ctx.n(250, 8000))
     return res
